@@ -177,23 +177,24 @@ def _h(obj, names=None):
 
 def fingerprints(omir_path):
     """{function def path: fingerprint}; closures are folded into the functions that create them."""
-    recs = {}
-    with open(omir_path) as fh:
+    recs = {}                       # def path -> [records]: a path can name several bodies (anonymous consts `_`,
+    with open(omir_path) as fh:     # items nested in different anonymous scopes) — every one of them counts
         for line in fh:
             r = json.loads(line)
             if r.get("rec") == "obody":
-                recs[r["def"]] = r
+                recs.setdefault(r["def"], []).append(r)
     depth = lambda n: n.count("::{closure#")
     names = {}
     own = {}
     for n in sorted(recs, key=lambda n: -depth(n)):
-        c = canonical(recs[n], names)
-        h = _h(c, names)
+        hs = sorted(_h(canonical(r, names), names) for r in recs[n])
+        h = hs[0] if len(hs) == 1 else _h(hs)
         own[n] = h
         if depth(n):
             names[n] = "<closure %s>" % h
-            if recs[n].get("tyname"):
-                names[recs[n]["tyname"]] = "<closure %s>" % h      # the span spelling of the same closure type
+            for r in recs[n]:
+                if r.get("tyname") and len(recs[n]) == 1:
+                    names[r["tyname"]] = "<closure %s>" % h      # the span spelling of the same closure type
     # A function's fingerprint covers the bodies of all closures nested in it, whether or not the function's own MIR
     # names them: a closure that captures nothing is a zero-sized constant whose type is spelt by source span
     # (`{closure@file:l:c}`), not by `{closure#N}`, so it does not show up through the renaming above.
